@@ -411,16 +411,27 @@ func Check(o CheckOptions) int {
 	exit := 0
 	sort.Strings(tot.Violations)
 	var confirmed []string
+	unconfirmed := 0
 	for _, p := range tot.Violations {
-		cmd := exec.Command(o.Self, "replay", p)
-		outb, _ := cmd.CombinedOutput()
-		code := cmd.ProcessState.ExitCode()
-		if code == 1 && bytes.Contains(outb, []byte("REPRODUCED")) {
+		ok := false
+		var outb []byte
+		code := 0
+		for attempt := 0; attempt < 2 && !ok; attempt++ {
+			cmd := exec.Command(o.Self, "replay", p)
+			outb, _ = cmd.CombinedOutput()
+			code = cmd.ProcessState.ExitCode()
+			ok = code == 1 && bytes.Contains(outb, []byte("REPRODUCED")) && !bytes.Contains(outb, []byte("NOT-REPRODUCED"))
+		}
+		if ok {
 			confirmed = append(confirmed, p)
 		} else {
-			fmt.Fprintf(os.Stderr, "HARNESS-FAULT replay of %s did not reproduce identically (exit %d):\n%s\n", p, code, outb)
-			exit = 2
+			fmt.Fprintf(os.Stderr, "HARNESS-FAULT replay of %s did not reproduce identically in a fresh process (exit %d):\n%s\n", p, code, outb)
+			unconfirmed++
 		}
+	}
+	if unconfirmed > 0 && len(confirmed) == 0 {
+		// nothing that was reported could be reproduced: harness trouble, not a verdict
+		exit = 2
 	}
 	for _, id := range sortedKeysInt(tot.Known) {
 		f := findings.ByID(id)
